@@ -35,4 +35,15 @@ struct Cursor {
 		position = static_cast<std::size_t>(target);
 	}
 };
+
+// R-NARROW (implicit): a symbol moved into a 16-bit slot number before the range test, so the test sees the wrapped value
+struct Codes {
+	std::vector<uint16_t> table;
+	uint16_t count;
+	uint16_t Find(uint16_t code) {
+		const uint16_t slot = code + count;
+		if (slot >= table.size()) { throw 1; }
+		return table[slot];
+	}
+};
 }
